@@ -31,13 +31,13 @@ def shards(tier, seed):
     out = [{"kind": "catalogue", "seed": seed}, {"kind": "handbuilt", "seed": seed}]
     structured = {"labels": False}
     for s in shard_seeds(seed, 6, "C02a"):
-        out.append({"kind": "compiled", "seed": s, "n": 50 if q else 1200, "depth": 2, "cfg": dict(structured)})
+        out.append({"kind": "compiled", "seed": s, "n": 130 if q else 1200, "depth": 2, "cfg": dict(structured)})
     for s in shard_seeds(seed, 2, "C02f"):
-        out.append({"kind": "flat", "seed": s, "n": 50 if q else 1200})
+        out.append({"kind": "flat", "seed": s, "n": 100 if q else 1200})
     # other layouts of the flow graphs of label-free programs: strict as well (a survey of 1000 such inputs on the unchanged tree
     # found one mismatch, which is K07)
     for s in shard_seeds(seed, 3, "C02b"):
-        out.append({"kind": "relaid", "seed": s, "n": 60 if q else 1200, "depth": 2, "cfg": dict(structured)})
+        out.append({"kind": "relaid", "seed": s, "n": 130 if q else 1200, "depth": 2, "cfg": dict(structured)})
     # unstructured classes: judged as well, but mis-structuring there is the open finding K05 (see DESIGN.md)
     for s in shard_seeds(seed, 2, "C02u"):
         out.append({"kind": "compiled", "seed": s, "n": 40 if q else 1000, "depth": 2, "unstructured": True})
